@@ -18,7 +18,18 @@ def main():
         subprocess.run(["git", "-C", "/repo", "worktree", "add", "--detach", "-q", wt, "HEAD"], check=True)
         try:
             a = subprocess.run(["git", "-C", wt, "apply", os.path.join(dest, "patch.diff")])
+            if a.returncode != 0:
+                # the tree moved under the patch (later fix commits): retry with reduced context and store the rebased patch
+                a = subprocess.run(["git", "-C", wt, "apply", "-C1", os.path.join(dest, "patch.diff")])
+                if a.returncode == 0:
+                    d = subprocess.run(["git", "-C", wt, "diff"], capture_output=True, text=True).stdout
+                    open(os.path.join(dest, "patch.diff"), "w").write(d)
+                    meta["rebased_onto"] = subprocess.run(["git", "-C", "/repo", "rev-parse", "--short", "HEAD"], capture_output=True, text=True).stdout.strip()
             meta["patch_applies"] = a.returncode == 0
+            envd = dict(os.environ, PYTHONPATH=wt, OMP_NUM_THREADS="2", PYTHONWARNINGS="ignore")
+            envd.pop("LANL_PYSEQM_VERIF", None)
+            dd = subprocess.run(["/venv/bin/python", os.path.join(dest, "demo.py")], cwd=wt, env=envd, stdout=subprocess.PIPE, stderr=subprocess.STDOUT, text=True)
+            meta["demo_patched_rc"] = dd.returncode
             if os.environ.get("SEED_PYTEST") == "1":
                 envp = dict(os.environ, PYTHONPATH=wt, OMP_NUM_THREADS="2", PYTHONWARNINGS="ignore")
                 envp.pop("LANL_PYSEQM_VERIF", None)
@@ -44,7 +55,7 @@ def main():
         finally:
             subprocess.run(["git", "-C", "/repo", "worktree", "remove", "--force", wt], check=False)
         json.dump(meta, open(os.path.join(dest, "meta.json"), "w"), indent=1)
-        print(sid, meta.get("patch_applies"), p.returncode, kinds)
+        print(sid, "applies", meta.get("patch_applies"), "demo", meta.get("demo_patched_rc"), "check", p.returncode, kinds, flush=True)
 
 
 main()
